@@ -93,9 +93,12 @@ def variants(rng, pr: kruns.Prepared, sizes):
             yield f"mode:{name}[{l}]", v
         if len(ordering) >= 2:
             perms = [p for p in itertools.permutations(ordering) if p != ordering]
-            v = dict(base)
-            v[name] = ("tensor", modes, rng.choice(perms), dims)
-            yield f"ordering:{name}", v
+            # every other ordering (at most 5 for order 3): the inverse permutation is the one a per-level
+            # comparison written the wrong way round would accept
+            for pm in (perms if len(perms) <= 5 else rng.sample(perms, 5)):
+                v = dict(base)
+                v[name] = ("tensor", modes, pm, dims)
+                yield f"ordering:{name}:{''.join(map(str, pm))}", v
         v = dict(base)
         del v[name]
         yield f"missing:{name}", v
